@@ -5816,6 +5816,9 @@ class PyCdlib:
                     name = b''
                 else:
                     name = ident
+                if udf_rec.file_ident is not None:
+                    # Each UDF File Identifier carries its own encoding.
+                    encoding = udf_rec.file_ident.encoding
                 names.insert(0, name.decode(encoding))
                 udf_rec = udf_rec.parent
 
